@@ -67,7 +67,7 @@ func run(c *vf.Ctx) {
 	c.Extra("git_invocations", gitx.Calls.Load())
 	c.Floor("round trips", c.Counter("roundtrips"), c.N(2500, 50000))
 	c.Floor("message types", c.SeenCount("message_types"), 14)
-	c.Floor("git ls-remote confirmations of advertisements", c.Counter("git_lsremote_confirmations"), c.N(90, 1200))
+	c.Floor("git ls-remote confirmations of advertisements", c.Counter("git_lsremote_confirmations"), c.N(75, 1200))
 	c.Floor("git receive-pack confirmations of update requests", c.Counter("git_receivepack_confirmations"), c.N(30, 450))
 	c.Floor("git upload-pack confirmations of upload requests", c.Counter("git_uploadpack_confirmations"), c.N(35, 500))
 	c.Assume("equality is modulo what the encoders document: references, wants, haves and shallows are compared as sets (the encoders sort and deduplicate), capability order is insertion order")
